@@ -39,6 +39,7 @@ type VPCase struct {
 	VArg  string            `json:"varg"`     // missing: "" = no validate argument, "-" = bare `validate` (struct validation), else the constraints
 	Nest  bool              `json:"nest"`     // expr: every placeholder ${a} is written with a computed key, ${${ka}} (ka: a), i.e. nested inside the expression
 	Opt   bool              `json:"opt"`      // validate / vslice: the point also says required=false (a bound value is validated all the same)
+	Src   string            `json:"src"`      // validate: how the value reaches the point: "" = placeholder ${x}, lit = written in the tag, expr = a placeholder-free expression, phexpr = an expression over the placeholder
 }
 type VPCons struct {
 	K string `json:"k"`
@@ -386,6 +387,14 @@ func runVP(c *VPCase) map[string]any {
 			}
 		}
 		tag := "${x}"
+		switch c.Src {
+		case "lit":
+			tag = c.Val
+		case "expr":
+			tag = "#{" + c.Val + "+0}"
+		case "phexpr":
+			tag = "#{${x}+0}"
+		}
 		if c.Opt {
 			tag += ",required=false"
 		}
@@ -398,6 +407,7 @@ func runVP(c *VPCase) map[string]any {
 			cons = []VPCons{}
 		}
 		out["x"], out["cons"], out["ok"], out["bound"], out["panic"] = c.Val, cons, ok, val[strings.Index(val, ":")+1:], p
+		out["src"], out["opt"] = c.Src, c.Opt
 	}
 	return out
 }
